@@ -211,10 +211,24 @@ func orientGridHandler(raw json.RawMessage) map[string]any {
 // case {pts: [a,b,c] exact}: both functions on all 6 argument permutations.
 var perms3 = [6][3]int{{0, 1, 2}, {1, 2, 0}, {2, 0, 1}, {1, 0, 2}, {0, 2, 1}, {2, 1, 0}}
 
+// orientBuf: three coordinates that live as long as the driver and are overwritten IN PLACE for every case (a caller that
+// walks a flat array hands the same three slices to every call): the call made with them first and last in a case must
+// answer for the values they hold now, whatever an earlier call saw in the same storage.
+var orientBuf = [3]geom.Coord{{0, 0}, {0, 0}, {0, 0}}
+
 func orientExactHandler(raw json.RawMessage) map[string]any {
 	var c struct{ Pts []pt }
 	must(json.Unmarshal(raw, &c))
 	p := []geom.Coord{c.Pts[0].coord(), c.Pts[1].coord(), c.Pts[2].coord()}
+	for i := range orientBuf {
+		copy(orientBuf[i], p[i][:2])
+	}
+	reuse := []int{}
+	inPlace := func() {
+		r, _ := guardI(func() int { return int(bigxy.OrientationIndex(orientBuf[0], orientBuf[1], orientBuf[2])) })
+		reuse = append(reuse, r)
+	}
+	inPlace()
 	var res [][]int
 	for _, pm := range perms3 {
 		r1, _ := guardI(func() int { return int(bigxy.OrientationIndex(p[pm[0]], p[pm[1]], p[pm[2]])) })
@@ -225,11 +239,12 @@ func orientExactHandler(raw json.RawMessage) map[string]any {
 		})
 		res = append(res, []int{r1, r2})
 	}
+	inPlace()
 	xs := [][]string{}
 	for _, q := range p {
 		xs = append(xs, exactStrs(q[:2]))
 	}
-	return map[string]any{"res": res, "x": xs}
+	return map[string]any{"res": res, "x": xs, "reuse": reuse}
 }
 
 // ------------------------------------------------------------------ C11
